@@ -329,7 +329,16 @@ def exec_assembly(r):
                 r2["mcls"] = list(r["mcls"])
                 r2["mcls"][tw["pos"]] = r["mcls_swap"]
         vc2, mc2, vr2, mr2 = build_inputs(r2)
-        out2 = call_assemble(vc2, mc2, vr2, mr2, r2.get("id"), r2.get("name"), None)
+        wr2 = None
+        if by == "swap" and tw.get("reuse") and wr is not None:
+            # "replace one module, keep the rest": the very same vector and module objects (and wrappers) are used again
+            p_ = tw["pos"]
+            vr2, mr2 = vrec, [m if j != p_ else mr2[p_] for j, m in enumerate(mrecs)]
+            try:
+                wr2 = (wr[0], [w if j != p_ else mc2[p_](mr2[p_]) for j, w in enumerate(wr[1])])
+            except Exception:  # noqa
+                wr2 = None
+        out2 = call_assemble(vc2, mc2, vr2, mr2, r2.get("id"), r2.get("name"), None, wrappers=wr2)
         out2.pop("_product", None)
         ev["twin"] = {"by": by, "out": out2, "pos": tw.get("pos", 0) + 1,
                       "mod": rec_proj(mr2[tw["pos"]]) if by == "swap" else {}}
